@@ -332,6 +332,67 @@ class Effects:
         self._late: dict[int, Event] = {}
 
     # ------------------------------------------------------------------ freshness
+    def deep_containers(self, f: FuncInfo) -> set[str]:
+        """Local containers of f all of whose elements were created in this call: bound to an empty / fresh-element display or
+        constructor, and only ever given fresh objects (`L.append(set())`, `D[k] = Record(…)`, a dict comprehension of constructor
+        calls) - also by nested functions, which share the variable; any other mutator leaves the name out."""
+        cache = getattr(self, "_deep_cache", None)
+        if cache is None:
+            cache = self._deep_cache = {}
+        if f.key in cache:
+            return cache[f.key]
+        cache[f.key] = set()
+        if isinstance(f.node, ast.Lambda):
+            return cache[f.key]
+        params = set(f.params)
+
+        def fresh_elem(x) -> bool:
+            return isinstance(x, ast.Call) and (dotted_of(x.func) in ("set", "list", "dict", "frozenset") or self.fresh_call(f, x))
+
+        cand: dict[str, bool] = {}
+        for n in ast.walk(f.node):
+            tgt = val = None
+            if isinstance(n, ast.Assign) and len(n.targets) == 1 and isinstance(n.targets[0], ast.Name):
+                tgt, val = n.targets[0].id, n.value
+            elif isinstance(n, ast.AnnAssign) and isinstance(n.target, ast.Name) and n.value is not None:
+                tgt, val = n.target.id, n.value
+            if tgt is None or tgt in params:
+                continue
+            okv = (isinstance(val, (ast.List, ast.Tuple, ast.Set)) and all(fresh_elem(x) for x in val.elts)) or (
+                isinstance(val, ast.Dict) and all(fresh_elem(x) for x in val.values)) or (
+                isinstance(val, ast.Call) and dotted_of(val.func) in ("list", "set", "dict") and not val.args and not val.keywords) or (
+                isinstance(val, ast.DictComp) and fresh_elem(val.value)) or (
+                isinstance(val, (ast.ListComp, ast.SetComp)) and fresh_elem(val.elt))
+            cand[tgt] = cand.get(tgt, True) and okv
+        for n in ast.walk(f.node):
+            if isinstance(n, ast.Call) and isinstance(n.func, ast.Attribute) and isinstance(n.func.value, ast.Name) and n.func.value.id in cand:
+                nm = n.func.value.id
+                if n.func.attr in ("append", "add", "appendleft"):
+                    if not (n.args and fresh_elem(n.args[0])):
+                        cand[nm] = False
+                elif n.func.attr in ("extend", "update", "insert", "__setitem__", "setdefault"):
+                    cand[nm] = False
+            elif isinstance(n, (ast.Assign, ast.AugAssign)):
+                for t in (n.targets if isinstance(n, ast.Assign) else [n.target]):
+                    if isinstance(t, ast.Subscript) and isinstance(t.value, ast.Name) and t.value.id in cand:
+                        if not (isinstance(n, ast.Assign) and fresh_elem(n.value)):
+                            cand[t.value.id] = False
+        cache[f.key] = {k for k, v in cand.items() if v}
+        return cache[f.key]
+
+    def _deep_in_scope(self, f: FuncInfo, name: str) -> bool:
+        """name is a deep-fresh container of f or - as a closure variable - of an enclosing function."""
+        g = f
+        while g is not None:
+            if name in g.params:
+                return False
+            if name in self.deep_containers(g):
+                return True
+            if name in self.ty.env(g) and g is not f:
+                return False
+            g = g.parent
+        return False
+
     def fresh_locals(self, f: FuncInfo) -> set[str]:
         """Locals bound only to objects created in this call (constructors, literals, copies)."""
         if f.key in self._fresh_cache:
@@ -346,7 +407,12 @@ class Effects:
             if isinstance(e, (ast.List, ast.Dict, ast.Set, ast.Tuple, ast.ListComp, ast.DictComp, ast.SetComp, ast.GeneratorExp, ast.Constant, ast.JoinedStr)):
                 return True
             if isinstance(e, ast.Call):
+                if isinstance(e.func, ast.Attribute) and e.func.attr in ("get", "pop", "setdefault") and isinstance(e.func.value, ast.Name) \
+                        and self._deep_in_scope(f, e.func.value.id) and len(e.args) <= 1:
+                    return True  # an element of a container that only holds objects built in this call (or None)
                 return self.fresh_call(f, e)
+            if isinstance(e, ast.Subscript) and isinstance(e.value, ast.Name) and not isinstance(e.slice, ast.Slice) and self._deep_in_scope(f, e.value.id):
+                return True
             if isinstance(e, ast.BinOp):
                 return True
             if isinstance(e, ast.IfExp):
